@@ -999,12 +999,17 @@ fn main() {
     let stdin = std::io::stdin();
     let out = std::io::stdout();
     let mut out = std::io::BufWriter::with_capacity(1 << 20, out.lock());
+    // VERIF_FLUSH=1: flush after every case, so that after an abort (stack overflow, abort()) the number of lines written names the case
+    let flush = std::env::var("VERIF_FLUSH").is_ok();
     match mode {
         "run" => {
             for line in stdin.lock().lines() {
                 let line = line.unwrap();
                 let r = guarded(|| run(&line));
                 writeln!(out, "{}", r.unwrap_or_else(|| "PANIC".into())).unwrap();
+                if flush {
+                    out.flush().unwrap();
+                }
             }
         },
         "oracle" => {
@@ -1012,6 +1017,9 @@ fn main() {
                 let line = line.unwrap();
                 let r = guarded(|| oracle::check(&line));
                 writeln!(out, "{}", r.unwrap_or_else(|| "FAIL C06 panic in oracle path".into())).unwrap();
+                if flush {
+                    out.flush().unwrap();
+                }
             }
         },
         "probe" => {
